@@ -73,14 +73,59 @@ const (
 	prime       = 16777619
 )
 
+type pair struct {
+	A int
+	B string
+}
+
+// every kind lang.Repr distinguishes (core/lang/lang.go reprOfValue), plus pointers and a struct
 func mk(v Val) any {
+	i64 := func() int64 { n, _ := strconv.ParseInt(v.V, 10, 64); return n }
+	u64 := func() uint64 { n, _ := strconv.ParseUint(v.V, 10, 64); return n }
 	switch v.Kind {
 	case "int":
-		n, _ := strconv.Atoi(v.V)
-		return n
+		return int(i64())
+	case "i8":
+		return int8(i64())
+	case "i16":
+		return int16(i64())
+	case "i32":
+		return int32(i64())
 	case "i64":
-		n, _ := strconv.ParseInt(v.V, 10, 64)
-		return n
+		return i64()
+	case "u":
+		return uint(u64())
+	case "u8":
+		return uint8(u64())
+	case "u16":
+		return uint16(u64())
+	case "u32":
+		return uint32(u64())
+	case "u64":
+		return u64()
+	case "f32":
+		f, _ := strconv.ParseFloat(v.V, 32)
+		return float32(f)
+	case "f64":
+		f, _ := strconv.ParseFloat(v.V, 64)
+		return f
+	case "bool":
+		return v.V == "true"
+	case "bytes":
+		return []byte(v.V)
+	case "err":
+		return errors.New(v.V)
+	case "nil":
+		return nil
+	case "pint": // a pointer is dereferenced
+		n := int(i64())
+		return &n
+	case "ppstr":
+		s := v.V
+		ps := &s
+		return &ps
+	case "struct": // default branch: fmt.Sprint
+		return pair{int(i64()), "x"}
 	case "stringer":
 		return strg{v.V}
 	case "pstringer":
